@@ -183,10 +183,10 @@ theorem create_spec {cfg : DispCfg} {h : Int} {s s' : DispState} {m : MsgCreate}
 inductive PayRel (cfg : DispCfg) (h : Int) (s : DispState) (r : Rec) : DispState → Outcome → Prop
   | skipped : cfg.validAddr r.rcpt = false → PayRel cfg h s r s .skipped
   | failed : cfg.validAddr r.rcpt = true →
-      sendModuleToAccount cfg.blocked s.bank cfg.module r.rcpt r.coins = none →
+      sendModuleToAccount cfg.blocked s.bank cfg.module (cfg.canon r.rcpt) r.coins = none →
       PayRel cfg h s r { s with failed := sSet s.failed r.key { r with done := h }, pending := sDel s.pending r.key } .failed
   | paid (b' : Bank) : cfg.validAddr r.rcpt = true →
-      sendModuleToAccount cfg.blocked s.bank cfg.module r.rcpt r.coins = some b' →
+      sendModuleToAccount cfg.blocked s.bank cfg.module (cfg.canon r.rcpt) r.coins = some b' →
       PayRel cfg h s r
         { s with bank := b', completed := sSet s.completed r.key { r with done := h }, pending := sDel s.pending r.key,
                  claims := if r.typ.claimable then sDel s.claims (claimKey r.rcpt r.typ) else s.claims } .paid
@@ -211,7 +211,7 @@ theorem payOne_rel (cfg : DispCfg) (h : Int) {s : DispState} {r : Rec} (hv : r.v
   | false => exact ⟨s, .skipped, by simp, .skipped ha⟩
   | true =>
     simp only [Bool.not_true, Bool.false_eq_true, if_false]
-    cases hs : sendModuleToAccount cfg.blocked s.bank cfg.module r.rcpt r.coins with
+    cases hs : sendModuleToAccount cfg.blocked s.bank cfg.module (cfg.canon r.rcpt) r.coins with
     | none =>
       simp only
       rw [moveRec_ok true h hv hg]
@@ -306,7 +306,7 @@ structure RunFacts (cfg : DispCfg) (h : Int) (s s' : DispState) (os : List (Key 
   keep : ∀ k, (∀ x ∈ os, x.1 ≠ k) → sGet s'.pending k = sGet s.pending k
   keepC : ∀ k, (∀ x ∈ os, x.1 ≠ k) → sGet s'.completed k = sGet s.completed k
   keepF : ∀ k, (∀ x ∈ os, x.1 ≠ k) → sGet s'.failed k = sGet s.failed k
-  bank : ∀ a d, a ≠ cfg.module → s'.bank.bal a d = s.bank.bal a d + paidTo os a d
+  bank : ∀ a d, a ≠ cfg.module → s'.bank.bal a d = s.bank.bal a d + paidTo cfg.canon os a d
   dists : s'.dists = s.dists
   supply : ∀ d, s'.bank.sup d = s.bank.sup d
   bankModule : cfg.blocked cfg.module = true → ∀ d, s'.bank.bal cfg.module d + paidAll os d = s.bank.bal cfg.module d
@@ -454,9 +454,9 @@ theorem payAll_spec (cfg : DispCfg) (h : Int) :
           · cases hs
           · rw [bal_sendCoins hs a d]
             simp only [ha, if_false]
-            by_cases e : a = r.rcpt
+            by_cases e : a = cfg.canon r.rcpt
             · subst e; simp; omega
-            · have : ¬ r.rcpt = a := fun e' => e e'.symm
+            · have : ¬ cfg.canon r.rcpt = a := fun e' => e e'.symm
               simp [e, this]
       · rw [hf.dists]; cases hrel <;> rfl
       · intro d
@@ -485,7 +485,7 @@ theorem payAll_spec (cfg : DispCfg) (h : Int) :
           split at hs
           · cases hs
           · rename_i hnb
-            have hne : ¬ cfg.module = r.rcpt := by
+            have hne : ¬ cfg.module = cfg.canon r.rcpt := by
               intro e; rw [← e, hblk] at hnb; exact hnb rfl
             have hb := bal_sendCoins hs cfg.module d
             simp only [if_true, hne, if_false] at hb
